@@ -260,6 +260,46 @@ func runC11(c *Ctx) {
 			}
 		}
 	}
+	// the whole collection directory disappears under a live handle (Drop, or an external removal):
+	// Control on that handle must report the indexed objects as missing
+	for _, cfg := range []Cfg{{}, {Cache: true}, {Compress: true, Lower: true}} {
+		for _, hist := range enumPaths(liveAlphabet[:4], 2) {
+			item++
+			if item%c.NShards != c.Shard {
+				continue
+			}
+			cfg, hist := cfg, hist
+			applicable := true
+			res := RunPath(cfg, "C11", nil, func(w *World) {
+				for _, op := range hist {
+					if !w.Applicable(op) {
+						applicable = false
+						return
+					}
+					w.Apply(op)
+				}
+				if len(w.Viol) > 0 {
+					return
+				}
+				w.FS.Del(w.collDir())
+				err := w.DB.Control()
+				if len(w.M.Objs) > 0 && !sod.IsIndexCorrupted(err) {
+					w.fail("undetected|directory-removed", fmt.Sprintf("the collection directory was removed under a live handle indexing %d objects; Control returns %v", len(w.M.Objs), err))
+				}
+			})
+			if !applicable {
+				continue
+			}
+			c.Count("evaluations", 1)
+			c.Count("transitions", 1)
+			key := "dirgone|" + cfg.String() + jsonOf(hist)
+			c.Distinct("states", key)
+			c.Distinct("distinct_nontrivial", key)
+			for _, v := range res.W.Viol {
+				c.Violation(v)
+			}
+		}
+	}
 	c.Meta(map[string]interface{}{
 		"rule":    "(live handles: every history of depth <= 3 (thorough 4) over 6 letters incl. the virtual-time tick, under 3 asynchronous and 1 cached configuration, then Repair on the live handle holding pending writes: nothing lost, reads unchanged, Control quiet after Close and Open.) for every base database (histories listed in evidence; closed, so async writes are on disk) and configuration: every assignment of {intact, file removed, index entry removed from object-ids and every field index by editing schema.json as JSON, both} to each stored object x {0,1,2} extra well-formed object files with fresh ids x {schema present, removed} (4^n*6 cases per base, exhaustive). Oracle: first load / Control report corruption iff indexed ids != file ids (no false positive on the healthy case); after (Create if needed and) Repair: Control = nil, index agrees with files decoded without sod code through every indexed field, every object file byte-identical (none modified, none deleted). Non-trivial = cases with at least one fault.",
 		"configs": cfgs, "bases": len(bases),
